@@ -1,4 +1,4 @@
-"""C04 — what the read API reports is the replay of the log   (PARTIAL: PostgreSQL cannot be run in the sandbox)."""
+"""C04 — what the read API reports is the replay of the log   (PARTIAL: PostgreSQL cannot be run in the sandbox; the projection half is proved at model level for every history)."""
 import collections
 
 from vlib.common import *
@@ -20,11 +20,24 @@ META = {
             "Stage 2 (MODEL LEVEL ONLY): extract/plpgsql (lark) re-translates 0-init-schema.sql on every run into Generated/Schema.lean (one "
             "structure per table, one definition per PL/pgSQL function / trigger: handle_log, insert_transaction, insert_posting, insert_move, "
             "upsert_account, update/delete_*_metadata, revert_transaction, the four history triggers) over the combinators of Model/Store/Sql.lean; "
-            "Lean theorems evaluate that generated projection in the kernel: projection_refines_replay_partial_small_scope (all 316 histories of "
-            "<= 2 entries over a small alphabet: the tables agree with replay on EVERY clause, no (account, asset) excepted, and no row of "
-            "another ledger is touched), projection_refines_replay_partial_example; three UNBOUNDED theorems about generated functions (every database state): "
-            "revert_sets_reverted_at_exactly, metadata_updates_keep_reverted_at, projection_frame_partial (revert_transaction / update_ / "
-            "delete_transaction_metadata and the revision trigger never touch another ledger's rows); the witnesses of the three repaired defects, now agreeing: "
+            "the projection half is now PROVED for every history (Props/C04.lean, section 'the full theorem'; Lemmas/StoreSql*.lean): "
+            "projection_refines_replay - for EVERY log sequence (any length, any number of ledgers in the bucket, back- and future-dated transactions, "
+            "reverts of anything, metadata set/delete on accounts and transactions that exist or not, script account metadata, ids and dates of any kind) "
+            "whose metadata maps have distinct keys (StoreSql.wellFormedHistory, decidable; the only hypothesis: a jsonb object / Go map cannot list a key "
+            "twice, the association lists of the model could), the tables the GENERATED trigger chain fills agree with Store.replay on every clause the "
+            "executable comparison checks (latest move by seq = running volumes; latest move by (effective_date, seq) dated <= d = effective volumes at d; "
+            "transactions with id, timestamp, reference, metadata, revisions, reverted_at; accounts with metadata and revisions; counts) and frameBad = []; "
+            "ledger_frame - for every projected history and every further entry the rows of every OTHER ledger in all five tables are EQUAL before and "
+            "after (no hypothesis); insert_move_maintains_volumes (every database state: the two select-into, the insert and the update of the later-dated "
+            "rows keep running and effective totals); projection_running_volumes / projection_effective_volumes (clauses (i), (ii) as a reader of moves uses them, "
+            "(ii) for EVERY date d, not only the dates that occur); generated_step_refines_typed_step (one INSERT into logs through the generated handle_log chain is the "
+            "typed step aStep, every database, every entry - the ONLY layer that unfolds Generated/Schema.lean: it stops checking when the SQL changes, "
+            "e.g. the seeded order-by change C04-1 or the missing `if not found` reset of 6 #24); projection_invariant; wellFormed_examples / wellFormed_needed "
+            "(the hypothesis holds on the rich example and on all 316 small histories, and cannot be dropped: J.beq is not reflexive on a 'map' with a key "
+            "twice); the check evaluates wellFormedHistory on every generated and enumerated history of the run (all satisfy it).  Kept from before, now "
+            "redundant confirmations by evaluation: projection_refines_replay_partial_small_scope (all 316 histories of <= 2 entries, kernel-evaluated), "
+            "projection_refines_replay_partial_example, revert_sets_reverted_at_exactly, metadata_updates_keep_reverted_at, projection_frame_partial; "
+            "the witnesses of the three repaired defects, now agreeing: "
             "projection_backdated_move_effective_volumes (design 6 #24), projection_self_posting_new_account, projection_timestamp_utc + "
             "stored_timestamps_are_utc (#25; projection_timestamp_offset_dropped keeps what the SQL would do with an offset: latent), and "
             "get_account_balance_before_witness (#22, latent); the same comparison runs executably on every generated history of the run - with the offset "
@@ -41,8 +54,9 @@ META = {
             "precedence-aware skeleton of the captured WHERE clause; attachment to the unfiltered statement's conjuncts; skeleton($not F) == NOT skeleton(F), "
             "$and/$or likewise, as truth tables) and the Lean driver area filtersem (model fragment == real fragment; Lean reading == Python reading of the "
             "real fragment and of the real WHERE clause; reading == meaning).  "
-            "The full projection_refines_replay (induction over arbitrary log "
-            "sequences through the generated definitions) and reads_equal_replay (what the Go query builders compute) are NOT proved.",
+            "Still NOT proved / not done: reads_equal_replay (what the Go query builders compute is not modelled), and nothing executes PostgreSQL: "
+            "projection_refines_replay is about the Lean translation of the PL/pgSQL under the semantics of Model/Store/Sql.lean; revision DATES of the "
+            "history tables and the `date` passed to upsert_account for script metadata (the transaction timestamp, not the log date) are not compared.",
     "note": "Stage 2 rests on Model/Store/Sql.lean, my reading of PostgreSQL (three-valued logic, select-into assigning NULLs when no row is "
             "returned, on-conflict, row-level after triggers, jsonb operators, ::timestamp dropping the zone) - TRUSTED, nothing can execute SQL here; "
             "its findings are model-level replays.  Not covered: executing the SQL.  The PostgreSQL projection (triggers of 0-init-schema.sql) and the read queries are never run; the "
@@ -723,6 +737,7 @@ def stage2(ctx, sv_inputs, sv_seen):
         else:
             outs = {r["id"]: r["out"] for r in read_jsonl(outf)}
             clean = 0
+            wf = 0
             for inp in inputs:
                 o = outs.get(inp["id"])
                 if o is None:
@@ -731,7 +746,14 @@ def stage2(ctx, sv_inputs, sv_seen):
                 report_model_discrepancies(ctx, inp, o, counts, "storesql")
                 if "driver_error" not in o and not o["discrepancies"] and not o["frame"]:
                     clean += 1
+                if "driver_error" not in o:
+                    if o.get("wellFormed"):
+                        wf += 1
+                    else:
+                        # outside the hypothesis of C04.projection_refines_replay: a metadata map with a key twice cannot come out of a Go map
+                        ctx.l2_broken.append({"stream": "storesql-history-not-well-formed", "id": inp["id"], "input": inp})
             info["histories"] = {"compared": len(inputs), "agreeing_on_every_clause": clean,
+                                 "satisfying WellFormedHistory (the hypothesis of C04.projection_refines_replay: distinct keys in every metadata map)": wf,
                                  "histories_by_discrepancy (class | shape)": dict(sorted(counts.items())),
                                  "rows_projected": {k: sum(o["rows"][k] for o in outs.values() if "rows" in o) for k in
                                                     ("logs", "transactions", "moves", "accounts", "transactions_metadata", "accounts_metadata")}}
@@ -747,7 +769,8 @@ def stage2(ctx, sv_inputs, sv_seen):
         else:
             o = rows[0]["out"]
             info["small_scope_enumeration"] = {"depth": depth, "histories": o["histories"], "with_a_discrepancy": o["discrepant"],
-                                               "frame_breaks": o["frameBreaks"], "histories_by_discrepancy (class | shape)": o["counts"],
+                                               "frame_breaks": o["frameBreaks"], "satisfying_WellFormedHistory": o.get("wellFormed"),
+                                               "histories_by_discrepancy (class | shape)": o["counts"],
                                                "alphabet": "ledgers l (all entry kinds) and m; accounts a, b (c for script metadata); one asset; amount 1; "
                                                            "timestamps before / at / after everything; see lean/Model/Store/Search.lean"}
             for w in o["witnesses"]:
@@ -878,11 +901,10 @@ def run(ctx):
         "1e filters": "proved (Lean, every expression): the where text built for a filter reads, under SQL precedence, as the filter's meaning; tied to the captured SQL of the "
                       "real store by the filter-structure lattice: attachment + composition oracle (Python) + Lean reading of the same text (driver area filtersem)",
         "2e translation": "regenerated on every run (extract/plpgsql -> Generated/Schema.lean); a construct outside the grammar stops the check",
-        "2f projection vs replay": "kernel-checked on all histories of <= 2 entries + one rich example (partial theorems); executable comparison on the "
-                                   "generated histories of the run and on the enumeration to depth 3/4; no counterexample to any clause (i)-(v) since the repairs of insert_move / "
-                                   "insert_posting / ParseTime (the three former counterexamples are corpus witnesses and agree); "
-                                   "unbounded proofs only for revert_transaction / update_transaction_metadata / delete_transaction_metadata + their trigger "
-                                   "(reverted_at written exactly there; frame); the insert path (insert_transaction, insert_posting, insert_move, upsert_account) has NO unbounded proof",
+        "2f projection vs replay": "PROVED for every well-formed history (projection_refines_replay: clauses (i)-(v); ledger_frame: clause (v) for every history, "
+                                   "equality of rows): data refinement of every generated function to a typed step (stepDB_conc), invariants Sane / VolOk / MovesRel / TxsRel / "
+                                   "AcctsRel kept by every entry, invariant => discrepanciesOf = []; additionally the executable comparison on the generated histories of the "
+                                   "run and on the enumeration to depth 3/4 (all satisfy the hypothesis), and the older kernel evaluations (<= 2 entries, one rich example)",
         "2g read functions / read queries": "get_account_balance(_before) transcribed by hand: latent defect witnessed; the Go query builders are NOT modelled "
                                             "(no render/eval model, reads_equal_replay not stated)",
     }
